@@ -192,6 +192,28 @@ theorem C05_rr_even (p : Pool) (robin : Nat) (hn : p.length < 4294967296)
   rw [hpicks _ _ hpos]
   exact mem_rrSeq hpos (by simpa [two32] using hn) hj
 
+/-- Sequences of selections on one upstream (stream `c05.seq`): whatever the states the pool
+goes through between calls and wherever the counter starts, every single selection of the
+sequence satisfies the judged property — a backend that recovers is selectable again. -/
+def selectSeq (k : Kind) : List (Pool × Nat × List Nat) → Nat → List (Pool × Option Nat)
+  | [], _ => []
+  | (p, h, rs) :: rest, robin =>
+    let r := upstreamSelect k p robin h rs
+    (p, r.1) :: selectSeq k rest r.2
+
+theorem C05_seq_all_ok (k : Kind) (steps : List (Pool × Nat × List Nat)) (robin : Nat)
+    (hw : ∀ s ∈ steps, WellSized s.1) :
+    ∀ po ∈ selectSeq k steps robin, verdict k po.1 po.2 = "ok" := by
+  induction steps generalizing robin with
+  | nil => intro po h; simp [selectSeq] at h
+  | cons s rest ih =>
+    obtain ⟨p, h, rs⟩ := s
+    intro po hpo
+    simp only [selectSeq, List.mem_cons] at hpo
+    rcases hpo with rfl | hpo
+    · exact C05_model_verdict_ok k p robin h rs (hw _ (by simp))
+    · exact ih _ (fun s hs => hw s (by simp [hs])) po hpo
+
 /-- The seven policy names the Casketfile accepts are the ones modelled
 (regenerated from policy.go:init on every run). -/
 theorem C05_policy_names_modelled :
